@@ -29,7 +29,7 @@ func setOf(s string) string {
 	return strings.Join(l, " ")
 }
 
-var c13States = []string{"", " padded-state-012345 ", "tab\tand-newline-012345\n", "short", "1234567", "12345678", "state-0123456789", "a&b=c#d %+é/?", "st ate+plus%2Bpct", "<script>alert(1)</script>x", "\"quoted'state\""}
+var c13States = []string{"", "1234", "12345678901", "123456789012", "1234567890123456789", "12345678901234567890", " padded-state-012345 ", "tab\tand-newline-012345\n", "short", "1234567", "12345678", "state-0123456789", "a&b=c#d %+é/?", "st ate+plus%2Bpct", "<script>alert(1)</script>x", "\"quoted'state\""}
 
 func TestC13_AuthorizeValidation(t *testing.T) {
 	h.SetProperty("C13")
@@ -37,7 +37,14 @@ func TestC13_AuthorizeValidation(t *testing.T) {
 	combos := []string{"code", "token", "id_token", "code token", "code id_token", "id_token token", "code id_token token", "token code", "id_token code"}
 	rapid.Check(t, func(rt *rapid.T) {
 		h.ClockReset()
-		w := h.NewWorld(h.Spec{RefreshScopes: []string{}})
+		// the operator's minimum length for state and nonce (0: the library default of 8)
+		minParam := rapid.SampledFrom([]int{0, 0, 0, 5, 12, 20}).Draw(rt, "minParameterEntropy")
+		minLen := minParam
+		if minLen == 0 {
+			minLen = 8
+		}
+		w := h.NewWorld(h.Spec{RefreshScopes: []string{}, Mutate: func(c *fosite.Config) { c.MinParameterEntropy = minParam }})
+		h.Label(fmt.Sprintf("min-parameter-entropy=%d", minParam))
 		// ---- registration
 		cl := stdClient("c13", rapid.IntRange(0, 3).Draw(rt, "public") == 0)
 		if cl.Public {
@@ -86,7 +93,7 @@ func TestC13_AuthorizeValidation(t *testing.T) {
 		rtype := rapid.SampledFrom([]string{"code", "code", "token", "id_token", "code token", "token code", "code id_token", "id_token code", "id_token token", "code id_token token", "token id_token code", "code code", "CODE", "Code Token", "code foo", "", "none", "id_token  token"}).Draw(rt, "response_type")
 		mode := rapid.SampledFrom([]string{"", "", "query", "fragment", "form_post", "web_message", "QUERY"}).Draw(rt, "response_mode")
 		state := rapid.SampledFrom(c13States).Draw(rt, "state")
-		nonce := rapid.SampledFrom([]string{"", "1234567", "12345678", "nonce-0123456789"}).Draw(rt, "nonce")
+		nonce := rapid.SampledFrom([]string{"", "1234", "12345", "1234567", "12345678", "12345678901", "123456789012", "nonce-0123456789", "1234567890123456789", "12345678901234567890"}).Draw(rt, "nonce")
 		openid := rapid.Bool().Draw(rt, "openid") || strings.Contains(strings.ToLower(rtype), "id_token")
 		withRedirect := rapid.IntRange(0, 4).Draw(rt, "withRedirect") != 0
 		scope := "a"
@@ -196,21 +203,21 @@ func TestC13_AuthorizeValidation(t *testing.T) {
 		if mode != "" && !modesRegistered[mode] {
 			unmet = append(unmet, "response_mode not allowed for the client")
 		}
-		if len(effState) < 8 {
+		if len(effState) < minLen {
 			unmet = append(unmet, "state shorter than the minimum")
 		}
 		if openid && !withRedirect {
 			unmet = append(unmet, "OpenID Connect request without redirect_uri")
 		}
 		hasID := strings.Contains(setOf(rtype), "id_token")
-		if hasID && len(effNonce) < 8 {
+		if hasID && len(effNonce) < minLen {
 			unmet = append(unmet, "ID token requested without a nonce of minimum length")
 		}
 		if usedObject && objOK == h.No {
 			unmet = append(unmet, "request object not verifiable under the client's registration")
 		}
 		nontrivial := len(unmet) == 1 || (delivered && mode != "") || usedObject
-		h.Case(fmt.Sprintf("C13/%s/%s/%d/%d/%v/%v/%s/%v/%v", setOf(rtype), mode, len(state), len(nonce), openid, withRedirect, objKind, len(unmet), delivered), nontrivial, func() any {
+		h.Case(fmt.Sprintf("C13/%d/%s/%s/%d/%d/%v/%v/%s/%v/%v", minParam, setOf(rtype), mode, len(state), len(nonce), openid, withRedirect, objKind, len(unmet), delivered), nontrivial, func() any {
 			return map[string]any{"registered_types": cl.ResponseTypes, "grants": cl.GrantTypes, "registered_modes": cl.ResponseModes, "response_type": rtype, "response_mode": mode, "state": state, "nonce": nonce, "openid": openid, "redirect_uri": withRedirect, "request_object": objKind, "unmet": unmet, "delivered": delivered, "result": res.Err.String()}
 		})
 		if delivered {
